@@ -87,6 +87,7 @@ type loopInfo struct {
 	measure0 Term
 	hasMeasure bool
 	invMark  int
+	parent   *loopInfo // innermost enclosing loop, nil for an outermost one
 }
 
 func NewExec(ld *Loaded, cs *ContractSet) *Exec {
@@ -94,6 +95,15 @@ func NewExec(ld *Loaded, cs *ContractSet) *Exec {
 		unsupported: map[string]bool{}, assumedUsed: map[string]bool{}, inlinedUsed: map[string]bool{}, havocCalls: map[string]bool{},
 		obNames: map[string]int{}, nilChecked: map[string]bool{}, heapInits: map[string]Term{}, maxInline: 6, checkPanics: true,
 		callOrd: map[string]int{}}
+}
+
+// outerOf: the state at the head of the current iteration of the loop that
+// encloses li (what outer(...) reads in li's invariants).
+func outerOf(li *loopInfo) *State {
+	if li != nil && li.parent != nil {
+		return li.parent.headSt
+	}
+	return nil
 }
 
 func (ex *Exec) unsup(what string) {
@@ -990,6 +1000,14 @@ func analyseCFG(fn *ssa.Function) *cfgInfo {
 
 // loopOrdinalOf maps a loop header to the ordinal of its for/range statement.
 func (ex *Exec) assignLoopOrdinals(fn *ssa.Function, ci *cfgInfo) {
+	// loop nesting (for outer(...) in the invariants of an inner loop)
+	for _, li := range ci.loops {
+		for _, lo := range ci.loops {
+			if lo != li && lo.blocks[li.header] && (li.parent == nil || len(lo.blocks) < len(li.parent.blocks)) {
+				li.parent = lo
+			}
+		}
+	}
 	loops := ex.ld.loopOrdinals(fn)
 	if len(loops) == 0 {
 		return
